@@ -7,11 +7,11 @@ import grams
 import props_parser as PP
 
 
-def dump_dirs(sc, dirs, lalr=True, timeout=900):
+def dump_dirs(sc, dirs, lalr=True, timeout=900, trace=False):
     tool = build_tool(sc, "dump")
-    lf = os.path.join(sc, "dump-dirs-%d.txt" % len(dirs))
+    lf = os.path.join(sc, "dump-dirs-%d-%d.txt" % (len(dirs), int(trace)))
     open(lf, "w").write("\n".join(dirs) + "\n")
-    p = run([tool] + ([] if lalr else ["-nolalr"]) + ["@" + lf], timeout=timeout)
+    p = run([tool] + ([] if lalr else ["-nolalr"]) + (["-trace"] if trace else []) + ["@" + lf], timeout=timeout)
     return [json.loads(l) for l in p.stdout.decode().splitlines() if l.strip()]
 
 
@@ -115,7 +115,46 @@ def c04(tier):
             sig = "c04." + k if k != "wrong-action" else "c04.wrong-action:" + c["id"]
             rep.failure(sig, "grammar %s state %d terminal %s: lox %s, documented rule allows %s" % (
                 c["id"], cell["q"], lc["g"]["terminals"][cell["a"]], cell["lox"], cell["ref"]), PP.replay_of(c))
+    # ---- the construction loop itself: every visit the real ConstructLALR makes (verif-tag hook) must be the next
+    #      visit of LALRConstruct.tla, and the model must end with the reference automaton
+    sample = [c for c in keep if not c["gen"].get("skipcli")]
+    rng.shuffle(sample)
+    sample = sample[:(70 if quick else 600)]
+    tdumps = dump_dirs(sc, [c["gen"]["dir"] for c in sample], trace=True)
+    kc, kown = [], []
+    for c, d in zip(sample, tdumps):
+        if not d["ok"] or len(d["states"]) > 60:
+            continue
+        g = {"terminals": d["terminals"], "rules": d["rules"],
+             "tnames": [[ord(x) for x in n] for n in d["terminals"]], "rnames": [[ord(x) for x in n] for n in d["rules"]],
+             "prods": [{"lhs": p["lhs"], "rhs": p["rhs"], "prec": p["prec"], "assoc": p["assoc"]} for p in d["prods"]]}
+        tr = [{"from": e["from"], "sym": [ord(x) for x in e["sym"]], "to": e["to"], "new": e["new"], "changed": e["changed"],
+               "items": e["items"]} for e in d["trace"]]
+        kc.append({"id": c["id"], "g": g, "trace": tr})
+        kown.append(c)
+    sdk = spec_dir(sc, "spec-lalrc")
+    json.dump(kc, open(os.path.join(sdk, "lalrc_cases.json"), "w"))
+    rk = tlc(sc, "LALRConstruct", cfg="LALRConstruct.cfg", cwd=sdk, timeout=3000)
+    if rk.violation and "Temporal" in rk.violation:
+        rep.failure("c04.construction-model-does-not-terminate", "LALRConstruct.tla: " + rk.violation, {"tlc": rk.out[-2000:]})
+    else:
+        tlc_must(rk, "LALRConstruct")
+    ends = {l["c"]: l for l in rk.lines if l.get("lc") == "end"}
+    mism = {l["c"]: l for l in rk.lines if l.get("lc") == "mismatch"}
+    ntraced = 0
+    for i, c in enumerate(kown):
+        if i in mism:
+            rep.note("DRIFT: the real ConstructLALR loop deviates from LALRConstruct.tla on %s at visit %d (model %s, real %s)" % (
+                c["id"], mism[i]["l"], json.dumps(mism[i]["model"])[:160], json.dumps(mism[i]["real"])[:160]))
+        elif i in ends:
+            if ends[i]["traced"]:
+                ntraced += 1
+            if not ends[i]["isLALR"]:
+                raise Infra("LALRConstruct.tla does not end with the reference automaton on %s: the model is wrong" % c["id"])
+        else:
+            raise Infra("LALRConstruct.tla gave no verdict for %s" % c["id"])
     rep.coverage = {
+        "construction_traces_validated": ntraced, "construction_trace_drift": len(mism), "construction_model_states": rk.distinct,
         "programs": len(lcases), "disagreements_checked": len(lcases),
         "evaluations": len(lcases), "distinct_nontrivial": nconf,
         "rule": "grammars: curated classics (dangling else, LR(1)-not-LALR(1), precedence shapes), seeded random with and "
